@@ -379,9 +379,65 @@ impl Monitor for ReopenMonitor {
     }
 }
 
+/// Crash points across DIFAT growth: a v3 file is grown past 109 FAT sectors (first DIFAT
+/// sector) - in thorough runs past the second DIFAT sector - with the raw bytes reopened
+/// in both modes at checkpoints, densely around each new FAT / DIFAT sector.
+fn c02_large_scenario(ctx: &Ctx, case: u64, rep: &mut Report) {
+    use crate::engine::OpenHow;
+    let mut done: Vec<Step> = Vec::new();
+    let n_streams: usize = if ctx.quick() { 116 } else { 250 };
+    let res = guard::catch(|| -> Result<(), Fail> {
+        let mut sess = Session::create(Version::V3, None).map_err(|e| ("create | ok | err".to_string(), format!("{e}")))?;
+        let mut last_fat = 0u32;
+        for k in 0..n_streams {
+            for st in [Step::HOpen { slot: 0, path: format!("/s{k}"), how: OpenHow::Create }, Step::HWriteAll { slot: 0, len: 65536 }, Step::HClose { slot: 0 }] {
+                done.push(st.clone());
+                if sess.run(&st).is_some() {
+                    rep.count("abandoned_model_divergence");
+                    return Ok(());
+                }
+            }
+            let bytes = sess.shared.bytes();
+            let n_fat = u32::from_le_bytes([bytes[44], bytes[45], bytes[46], bytes[47]]);
+            let n_difat = u32::from_le_bytes([bytes[72], bytes[73], bytes[74], bytes[75]]);
+            let fat_grew = n_fat != last_fat;
+            last_fat = n_fat;
+            // every new FAT sector near / beyond the header DIFAT's capacity, plus a sparse sample
+            if (fat_grew && n_fat >= 108) || k % 25 == 24 || k + 1 == n_streams {
+                let exp = sess.model.dump();
+                for mode in [Mode::Permissive, Mode::Strict] {
+                    let obs = engine::dump_bytes(&bytes, mode).map_err(|w| (format!("crash-point | reopen {:?} | open failed", mode), format!("large scenario: after stream {k} ({n_fat} FAT sectors, {n_difat} DIFAT sectors): {w}")))?;
+                    engine::dumps_match(&exp, &obs).map_err(|w| (format!("crash-point | reopen {:?} | state differs", mode), format!("large scenario: after stream {k} ({n_fat} FAT sectors, {n_difat} DIFAT sectors): {w}")))?;
+                }
+                rep.count("crash_points");
+                rep.count("large_scenario.crash_points");
+                if n_difat > 0 {
+                    rep.count("large_scenario.crash_points_with_difat_sector");
+                }
+                rep.max("max_fat_sectors", n_fat as u64);
+                rep.max("max_difat_sectors", n_difat as u64);
+            }
+        }
+        Ok(())
+    });
+    let witness = ctx.witness(case, vec![("large_scenario", J::s("v3 file grown past 109 FAT sectors in 64 KiB streams")), ("steps_executed", J::Int(done.len() as i128)), ("last_steps", steps_json(&done[done.len().saturating_sub(6)..]))]);
+    match res {
+        Ok(Ok(())) => rep.count("large_scenarios"),
+        Ok(Err((sig, detail))) => rep.finding(sig, detail, witness),
+        Err(p) => rep.finding(p.signature(), format!("panic at {}:{}: {}", p.file, p.line, p.message), witness),
+    }
+    rep.add("steps", done.len() as u64);
+}
+
 pub fn run_c02(ctx: &Ctx, rep: &mut Report) {
     let mut i = 0;
     while let Some(case) = ctx.next_case(&mut i) {
+        if case == 0 && ctx.shard % 4 == 0 {
+            c02_large_scenario(ctx, case, rep);
+            rep.nontrivial(0xD1FA7 ^ ctx.shard);
+            rep.evaluations += 1;
+            continue;
+        }
         let mut rng = ctx.case_rng(case);
         let rng = &mut rng;
         let version = version_of(rng);
